@@ -169,7 +169,7 @@ def run_remote_listing(ctx, quick):
     t0 = time.time()
     trace = ctx.path("rl-trace.ndjson")
     args = ["--adlt", adlt, "--work", work, "--scenarios", scn, "--regressions", "--seed", str(ctx.seed), "--out", trace,
-            "--random", "48" if quick else "900", "--passes", "2" if quick else "3", "--reuse-every", "4" if quick else "2",
+            "--random", "48" if quick else "700", "--passes", "2" if quick else "3", "--reuse-every", "4" if quick else "3",
             "--workers", "10" if quick else "12", "--jitter-near", "30" if quick else "400", "--jitter-sample", "12" if quick else "300"]
     info = _drive(binp, args)
     rl["wall_driver_s"] = round(time.time() - t0, 1)
